@@ -11,8 +11,11 @@ import (
 	"bytes"
 	"fmt"
 	"hash/crc32"
+	"os"
+	"runtime"
 	"sort"
 	"strings"
+	"time"
 
 	"github.com/iDigitalFlame/xmt/c2"
 	"github.com/iDigitalFlame/xmt/com"
@@ -30,6 +33,91 @@ const (
 )
 
 var out *vh.Out
+
+// rec collects what one scenario reports; it is applied to out by the main goroutine only when
+// the scenario has finished in time (a stalled scenario keeps running in its goroutine)
+type rec struct{ ops []func() }
+
+func (r *rec) Add(term, class string, nt bool, desc interface{}) {
+	r.ops = append(r.ops, func() { out.Add(term, class, nt, desc) })
+}
+func (r *rec) Fail(what, key string, c interface{}) {
+	r.ops = append(r.ops, func() { out.Fail(what, key, c) })
+}
+func (r *rec) Count(class, key string, nt bool) {
+	r.ops = append(r.ops, func() { out.Count(class, key, nt) })
+}
+func (r *rec) Note(s string) { r.ops = append(r.ops, func() { out.Note(s) }) }
+
+const scenarioTimeout = 5 * time.Second
+
+// a stalled scenario cannot be stopped (its goroutine may spin and allocate): the run goes on only
+// while the heap stays small, otherwise it is closed in an orderly way with what it has
+var stalled int
+
+func heapTooBig() bool {
+	var m runtime.MemStats
+	runtime.ReadMemStats(&m)
+	return m.HeapAlloc > 1<<30
+}
+func finishEarly(why string) {
+	out.Note("run closed early: " + why)
+	out.Finish()
+	os.Exit(0)
+}
+
+// guard runs one scenario under a watchdog and a recover(): a scenario that stalls or panics is an
+// oracle failure whose replay is the scenario itself (queue, sizes, seeds); the run goes on.
+func guard(c qcase, kind string, body func(qcase, *rec)) {
+	desc := map[string]interface{}{"scenario": kind, "own": c.Own, "inter": c.Inter, "last": c.Last, "reg": c.Reg, "class": c.Class,
+		"frag": F, "packets": NP, "server_side_sender": c.Server, "oracle_only": c.OracleOnly}
+	if c.Host {
+		desc["receiver_hosts_proxy_for"] = c.Prox
+	}
+	if c.HasProxy {
+		desc["proxy_tags"] = c.PTags
+	}
+	qd := make([]interface{}, 0, len(c.Q))
+	for i := range c.Q {
+		if i == 40 {
+			qd = append(qd, fmt.Sprintf("... %d more (regenerate with the seed)", len(c.Q)-40))
+			break
+		}
+		qd = append(qd, c.Q[i].desc())
+	}
+	desc["queue"] = qd
+	if stalled > 0 && heapTooBig() {
+		finishEarly(fmt.Sprintf("%d scenario(s) stalled and the stalled code keeps allocating; the remaining scenarios were not run", stalled))
+	}
+	r := &rec{}
+	done := make(chan interface{}, 1)
+	go func() {
+		defer func() {
+			if x := recover(); x != nil {
+				done <- fmt.Sprint(x)
+			}
+		}()
+		body(c, r)
+		done <- nil
+	}()
+	select {
+	case x := <-done:
+		if x != nil {
+			desc["panic"] = x
+			out.Fail("a scenario panicked outside the calls it guards", "scenario-panic", desc)
+			return
+		}
+		for _, f := range r.ops {
+			f()
+		}
+	case <-time.After(scenarioTimeout):
+		desc["timeout_s"] = int(scenarioTimeout / time.Second)
+		out.Fail("a scenario did not finish: the implementation stalled (next / Marshal / receive never returned)", "scenario-stalled", desc)
+		if stalled++; stalled >= 3 || heapTooBig() {
+			finishEarly(fmt.Sprintf("%d scenario(s) stalled; the remaining scenarios were not run", stalled))
+		}
+	}
+}
 
 // ---------------------------------------------------------------- generated packets
 
@@ -220,7 +308,9 @@ func optPeek(p *com.Packet) string {
 	return fmt.Sprintf("(Some (%d,%d))", p.Job, cidOf(p.Payload()))
 }
 
-func run(c qcase) {
+func run(c qcase) { guard(c, "session", runBody) }
+
+func runBody(c qcase, o *rec) {
 	desc := map[string]interface{}{"own": c.Own, "inter": c.Inter, "server_side_sender": c.Server, "last": c.Last,
 		"reg": c.Reg, "class": c.Class, "frag": F, "packets": NP}
 	if c.HasProxy {
@@ -268,7 +358,7 @@ func run(c qcase) {
 	)
 	for iter := 0; ; iter++ {
 		if iter > 2*len(c.Q)+4 {
-			out.Fail("next() does not drain the queue", "no-progress", desc)
+			o.Fail("next() does not drain the queue", "no-progress", desc)
 			return
 		}
 		if c.HasProxy {
@@ -285,7 +375,7 @@ func run(c qcase) {
 			n = c2.C03Next(s, c.Inter)
 		}()
 		if panicked {
-			out.Fail("next() panicked", "next-panic", desc)
+			o.Fail("next() panicked", "next-panic", desc)
 			return
 		}
 		if n == nil {
@@ -317,16 +407,16 @@ func run(c qcase) {
 		)
 		if err := n.Marshal(&buf); err != nil {
 			desc["marshal_error"] = err.Error()
-			out.Fail("Marshal of a transmission failed", "marshal", desc)
+			o.Fail("Marshal of a transmission failed", "marshal", desc)
 			return
 		}
 		if err := r.Unmarshal(&buf); err != nil {
 			desc["unmarshal_error"] = err.Error()
-			out.Fail("Unmarshal of a transmission failed", "unmarshal", desc)
+			o.Fail("Unmarshal of a transmission failed", "unmarshal", desc)
 			return
 		}
 		if r.ID != id || r.Job != job || uint64(r.Flags) != fl || r.Device != devID(dev) || r.Chunk.Size() != plen || len(r.Tags) != len(tags) {
-			out.Fail("a transmission changed on the wire", "wire", desc)
+			o.Fail("a transmission changed on the wire", "wire", desc)
 			return
 		}
 		e0 := len(w.Events)
@@ -345,14 +435,14 @@ func run(c qcase) {
 			}
 		}()
 		if panicked {
-			out.Fail("the receiving side panicked", "recv-panic", desc)
+			o.Fail("the receiving side panicked", "recv-panic", desc)
 			return
 		}
 		ec := errCode(perr)
 		if ec != 0 {
 			anyErr++
 		}
-		dm, df := collect(w, e0, seen)
+		dm, df := collect(o, desc, w, e0, seen)
 		if host != nil {
 			// what landed in the queue of each proxied client, in order
 			for k, d := range c.Prox {
@@ -421,23 +511,33 @@ func run(c qcase) {
 		desc["queue"] = append(qd[:40:40], fmt.Sprintf("... %d more (regenerate with the seed)", len(qd)-40))
 	}
 	if c.OracleOnly {
-		out.Count(c.Class, term, nontrivial && len(c.Q) >= 2)
+		o.Count(c.Class, term, nontrivial && len(c.Q) >= 2)
 	} else {
-		out.Add(term, c.Class, nontrivial && len(c.Q) >= 2, desc)
+		o.Add(term, c.Class, nontrivial && len(c.Q) >= 2, desc)
 	}
 	if lenzero {
-		out.Note("observation (not a violation): a queue of only keep-alives (>= 2) produced a Multi container with Len 0; the peer rejects it with ErrInvalidPacketCount; the delivered sequence (empty) is as specified")
+		o.Note("observation (not a violation): a queue of only keep-alives (>= 2) produced a Multi container with Len 0; the peer rejects it with ErrInvalidPacketCount; the delivered sequence (empty) is as specified")
 	}
 
-	oracle(c, desc, mux, frags)
+	oracle(o, c, desc, mux, frags)
 }
 
 // collect returns the mux events since e0 and the packets newly stored in fragment tables.
-func collect(w *c2.C03World, e0 int, seen map[*com.Packet]bool) ([]dlv, []dlv) {
+func collect(o *rec, desc map[string]interface{}, w *c2.C03World, e0 int, seen map[*com.Packet]bool) ([]dlv, []dlv) {
 	var dm, df []dlv
-	for _, e := range w.Events[e0:] {
-		d := dlv{Sid: devNum(e.Sid), ID: e.ID, Job: e.Job, Dev: devNum(e.Device), Flags: uint64(e.Flags), Tags: e.Tags,
+	for k, e := range w.Events[e0:] {
+		// the view of the (asynchronous) mux consumer: the Packet as it is once receive() has returned
+		d := dlv{Sid: devNum(e.Sid), ID: e.P.ID, Job: e.P.Job, Dev: devNum(e.P.Device), Flags: uint64(e.P.Flags),
+			Tags: append([]uint32(nil), e.P.Tags...), Len: len(e.P.Payload()), Cid: cidOf(e.P.Payload())}
+		// ... against what was handed over at the moment it was queued
+		q := dlv{Sid: devNum(e.Sid), ID: e.ID, Job: e.Job, Dev: devNum(e.Device), Flags: uint64(e.Flags), Tags: e.Tags,
 			Len: len(e.Payload), Cid: cidOf(e.Payload)}
+		if d.key() != q.key() {
+			desc["event_index"] = k
+			desc["queued_as"] = q
+			desc["consumer_sees"] = d
+			o.Fail("a packet handed to the handlers changed before the (asynchronous) consumer looked at it: the consumer sees another packet", "event-aliased", desc)
+		}
 		dm = append(dm, d)
 	}
 	fr := w.C03Frags()
@@ -462,7 +562,7 @@ func collect(w *c2.C03World, e0 int, seen map[*com.Packet]bool) ([]dlv, []dlv) {
 }
 
 // oracle evaluates the property itself on what the implementation delivered.
-func oracle(c qcase, desc map[string]interface{}, mux, frags []dlv) {
+func oracle(o *rec, c qcase, desc map[string]interface{}, mux, frags []dlv) {
 	// queued containers are opened: the peer's handlers must see the packets they hold
 	{
 		var flat []gp
@@ -595,14 +695,14 @@ func oracle(c qcase, desc map[string]interface{}, mux, frags []dlv) {
 			if !em[j].abandoned {
 				desc["missing_or_misplaced"] = em[j].d
 				desc["delivered"] = d
-				out.Fail("a queued packet was lost, changed or reordered (delivered sequence is not the queued sequence)", "lost-or-reordered", desc)
+				o.Fail("a queued packet was lost, changed or reordered (delivered sequence is not the queued sequence)", "lost-or-reordered", desc)
 				return
 			}
 			j++
 		}
 		if j == len(em) {
 			desc["unexpected"] = d
-			out.Fail("the peer observed a packet that was not queued (or observed it twice)", "duplicate-or-alien", desc)
+			o.Fail("the peer observed a packet that was not queued (or observed it twice)", "duplicate-or-alien", desc)
 			return
 		}
 		j++
@@ -610,7 +710,7 @@ func oracle(c qcase, desc map[string]interface{}, mux, frags []dlv) {
 	for ; j < len(em); j++ {
 		if !em[j].abandoned {
 			desc["missing"] = em[j].d
-			out.Fail("a queued packet was never delivered although the queue drained", "lost", desc)
+			o.Fail("a queued packet was never delivered although the queue drained", "lost", desc)
 			return
 		}
 	}
@@ -635,7 +735,7 @@ func oracle(c qcase, desc map[string]interface{}, mux, frags []dlv) {
 		}
 		if _, ok := eby[k]; !ok {
 			desc["unexpected_group"] = k
-			out.Fail("the peer stored a fragment that was not queued", "duplicate-or-alien", desc)
+			o.Fail("the peer stored a fragment that was not queued", "duplicate-or-alien", desc)
 			return
 		}
 	}
@@ -646,14 +746,14 @@ func oracle(c qcase, desc map[string]interface{}, mux, frags []dlv) {
 			for j < len(want) && want[j].d.key() != d.key() {
 				if !want[j].abandoned {
 					desc["missing_or_misplaced"] = want[j].d
-					out.Fail("a queued fragment was lost, changed or reordered", "lost-or-reordered", desc)
+					o.Fail("a queued fragment was lost, changed or reordered", "lost-or-reordered", desc)
 					return
 				}
 				j++
 			}
 			if j == len(want) {
 				desc["unexpected"] = d
-				out.Fail("the peer stored a fragment that was not queued (or stored it twice)", "duplicate-or-alien", desc)
+				o.Fail("the peer stored a fragment that was not queued (or stored it twice)", "duplicate-or-alien", desc)
 				return
 			}
 			j++
@@ -661,7 +761,7 @@ func oracle(c qcase, desc map[string]interface{}, mux, frags []dlv) {
 		for ; j < len(want); j++ {
 			if !want[j].abandoned {
 				desc["missing"] = want[j].d
-				out.Fail("a queued fragment was never delivered although the queue drained", "lost", desc)
+				o.Fail("a queued fragment was never delivered although the queue drained", "lost", desc)
 				return
 			}
 		}
@@ -676,7 +776,9 @@ const pcExtra = 2 // polls after the queue has drained: they may only yield keep
 // clients, polled by that client until nothing is pending plus pcExtra more polls; every
 // transmission goes over the wire (Marshal, Clear as writePacket does, Unmarshal) into the real
 // receive(s, nil, n) of the client's Session.
-func runPC(c qcase) {
+func runPC(c qcase) { guard(c, "proxy-client", runPCBody) }
+
+func runPCBody(c qcase, o *rec) {
 	desc := map[string]interface{}{"own": c.Own, "inter": c.Inter, "proxy_client_queue": true, "class": c.Class,
 		"frag": F, "packets": NP, "extra_polls": pcExtra}
 	qd := make([]interface{}, len(c.Q))
@@ -702,8 +804,8 @@ func runPC(c qcase) {
 	for iter := 0; ; iter++ {
 		if iter > 2*len(c.Q)+4+pcExtra {
 			desc["polls"] = polls
-			oracle(c, desc, mux, frags) // what was delivered so far: duplicates show up here
-			out.Fail("proxyClient.next() does not drain the queue (something stays pending)", "pc-no-progress", desc)
+			oracle(o, c, desc, mux, frags) // what was delivered so far: duplicates show up here
+			o.Fail("proxyClient.next() does not drain the queue (something stays pending)", "pc-no-progress", desc)
 			return
 		}
 		var n *com.Packet
@@ -717,7 +819,7 @@ func runPC(c qcase) {
 			n = pc.Next(c.Inter)
 		}()
 		if panicked {
-			out.Fail("proxyClient.next() panicked", "pc-next-panic", desc)
+			o.Fail("proxyClient.next() panicked", "pc-next-panic", desc)
 			return
 		}
 		if n == nil {
@@ -745,13 +847,13 @@ func runPC(c qcase) {
 		)
 		if err := n.Marshal(&buf); err != nil {
 			desc["marshal_error"] = err.Error()
-			out.Fail("Marshal of a transmission failed", "marshal", desc)
+			o.Fail("Marshal of a transmission failed", "marshal", desc)
 			return
 		}
 		n.Clear() // writePacket clears what it has sent
 		if err := r.Unmarshal(&buf); err != nil {
 			desc["unmarshal_error"] = err.Error()
-			out.Fail("Unmarshal of a transmission failed", "unmarshal", desc)
+			o.Fail("Unmarshal of a transmission failed", "unmarshal", desc)
 			return
 		}
 		e0 := len(w.Events)
@@ -766,10 +868,10 @@ func runPC(c qcase) {
 			perr = w.C03ClientReceive(devID(c.Own), &r)
 		}()
 		if panicked {
-			out.Fail("the receiving client panicked", "pc-recv-panic", desc)
+			o.Fail("the receiving client panicked", "pc-recv-panic", desc)
 			return
 		}
-		dm, df := collect(w, e0, seen)
+		dm, df := collect(o, desc, w, e0, seen)
 		mux = append(mux, dm...)
 		frags = append(frags, df...)
 		ds := make([]string, len(dm))
@@ -807,8 +909,8 @@ func runPC(c qcase) {
 	if len(qd) > 40 {
 		desc["queue"] = append(qd[:40:40], fmt.Sprintf("... %d more (regenerate with the seed)", len(qd)-40))
 	}
-	out.Add(term, c.Class, nontrivial && len(c.Q) >= 2, desc)
-	oracle(c, desc, mux, frags)
+	o.Add(term, c.Class, nontrivial && len(c.Q) >= 2, desc)
+	oracle(o, c, desc, mux, frags)
 }
 
 // ---------------------------------------------------------------- generators
